@@ -456,3 +456,300 @@ pub fn run_c17(case: &C17Case, info: &mut CaseInfo) -> Result<(), Fail> {
 
     Ok(())
 }
+
+// ---------------------------------------------------------------------------------------------
+// C18
+// ---------------------------------------------------------------------------------------------
+
+#[derive(Serialize, Deserialize, Clone, Copy, Debug, PartialEq, Eq, Hash)]
+pub enum SyncMode {
+    Disabled,
+    Sync0,
+    /// SYNC1 period in ns
+    Sync01(u64),
+}
+
+#[derive(Serialize, Deserialize, Clone, Debug, PartialEq, Eq, Hash)]
+pub struct C18Case {
+    /// Per device: DC capability and requested sync mode
+    pub devices: Vec<(DcKind, SyncMode)>,
+    pub period_ns: u64,
+    pub delay_ns: u64,
+    pub shift_ns: u64,
+    /// Reference clock time during configure_dc_sync
+    pub ref_time: u64,
+    /// Reference clock times answered in successive cycles
+    pub cycle_times: Vec<u64>,
+}
+
+fn ns32() -> impl Strategy<Value = u64> {
+    let m = u64::from(u32::MAX);
+
+    prop_oneof![
+        4 => 1u64..=m,
+        2 => prop::sample::select(vec![1u64, 2, 3, 7, 10, 1000, 62_500, 125_000, 250_000, 1_000_000, 2_000_000, 1 << 31, (1 << 31) + 1, m - 1, m]),
+        1 => prop::sample::select(vec![m + 1, m + 2, 1 << 33, u64::MAX / 2, u64::MAX]),
+    ]
+}
+
+fn t64() -> impl Strategy<Value = u64> {
+    prop_oneof![
+        3 => any::<u64>(),
+        2 => (0u32..64, -2i64..=2).prop_map(|(p, d)| (1u64 << p).wrapping_add(d as u64)),
+        1 => prop::sample::select(vec![0u64, 1, u64::from(u32::MAX), u64::from(u32::MAX) + 1, u64::MAX - 1, u64::MAX]),
+        2 => 0u64..(1 << 40),
+    ]
+}
+
+pub fn c18_case() -> impl Strategy<Value = C18Case> {
+    (
+        prop::collection::vec(
+            (
+                prop_oneof![2 => Just(DcKind::None), 1 => Just(DcKind::RefOnly), 2 => Just(DcKind::Bits32), 3 => Just(DcKind::Bits64)],
+                prop_oneof![2 => Just(SyncMode::Disabled), 3 => Just(SyncMode::Sync0), 2 => ns32().prop_map(SyncMode::Sync01)],
+            ),
+            1..=8,
+        ),
+        ns32(),
+        prop_oneof![1 => Just(0u64), 4 => ns32()],
+        // shift: the same range, "just above" ends at 2^33 (beyond that period - offset + shift
+        // has no 64 bit result)
+        prop_oneof![1 => Just(0u64), 4 => ns32().prop_map(|s| s.min(1 << 33))],
+        t64(),
+        prop::collection::vec(t64(), 1..4),
+    )
+        .prop_map(|(devices, period_ns, delay_ns, shift_ns, ref_time, cycle_times)| {
+            // set-up clause: the stated interval must exist, i.e. reference time + delay fits u64
+            let ref_time = ref_time.min(u64::MAX - delay_ns);
+
+            C18Case { devices, period_ns, delay_ns, shift_ns, ref_time, cycle_times }
+        })
+}
+
+pub const C18_RULE: &str = "case = (group of 1..8 devices, each with DC capability none / reference only / 32 bit / 64 bit and DcSync disabled / SYNC0 / SYNC0+SYNC1 with a generated SYNC1 period; SYNC0 period, start delay and shift from 1 ns to u32::MAX and just above (edge values, powers of two +-1), reference clock time during set-up and in 1..3 cycles over all of u64 (boundaries, powers of two +-2)); non-trivial = period not a power of two and a cycle time >= 2^32, or a rejected configuration; distinct by hash of the case";
+
+#[derive(Debug, Clone)]
+struct C18Obs {
+    conf: Result<(), String>,
+    no_reference: bool,
+    cycles: Vec<Result<(u64, u128, u128), String>>,
+}
+
+pub fn run_c18(case: &C18Case, info: &mut CaseInfo) -> Result<(), Fail> {
+    use ethercrab::{DcSync, subdevice_group::DcConfiguration};
+    use std::time::Duration;
+
+    let n = case.devices.len();
+    let c17 = C17Case {
+        down_ports: vec![1; n],
+        dc: case.devices.iter().map(|d| d.0).collect(),
+        link_delay: vec![100; n],
+        clock_offset: vec![0; n],
+        wrap: vec![None; n],
+        now: 0,
+        static_sync: 0,
+        bogus: None,
+        perturb: None,
+    };
+
+    let knobs: Vec<DevKnobs> = (0..n)
+        .map(|i| {
+            let mut k = c17_knobs(i, &c17, 0);
+
+            // one byte of process data each, so that the cycle has something to carry
+            k.in_sms = vec![vec![vec![8]]];
+
+            k
+        })
+        .collect();
+
+    let spec: NetSpec = simgen::build_net(&knobs, &[], &[]);
+    let net: NetHandle = Rc::new(RefCell::new(Network::new(&spec)));
+    let cfg = SimConfig { dc_static_sync_iterations: 0, ..Default::default() };
+    let c = case.clone();
+    let net2 = net.clone();
+    let reference = case.devices.iter().position(|d| d.0 != DcKind::None);
+
+    let obs: Result<C18Obs, Error> = simexec::run(&net, &cfg, |md| {
+        Box::pin(async move {
+            let mut group = md.init_single_group::<8, 64>(|| 0).await?;
+
+            for (i, mut sd) in group.iter_mut(md).enumerate() {
+                sd.set_dc_sync(match c.devices[i].1 {
+                    SyncMode::Disabled => DcSync::Disabled,
+                    SyncMode::Sync0 => DcSync::Sync0,
+                    SyncMode::Sync01(p) => DcSync::Sync01 { sync1_period: Duration::from_nanos(p) },
+                });
+            }
+
+            let group = group.into_pre_op_pdi(md).await?;
+
+            {
+                let mut n = net2.borrow_mut();
+
+                for d in n.devices.iter_mut() {
+                    d.dc_sync_log.clear();
+                }
+
+                if let Some(r) = reference {
+                    n.devices[r].sys_time_force = Some(c.ref_time);
+                }
+            }
+
+            let conf = DcConfiguration {
+                start_delay: Duration::from_nanos(c.delay_ns),
+                sync0_period: Duration::from_nanos(c.period_ns),
+                sync0_shift: Duration::from_nanos(c.shift_ns),
+            };
+
+            let group = match group.configure_dc_sync(md, conf).await {
+                Ok(g) => g,
+                Err(e) => {
+                    return Ok(C18Obs { conf: Err(format!("{e:?}")), no_reference: matches!(e, Error::DistributedClock(ethercrab::error::DistributedClockError::NoReference)), cycles: vec![] });
+                }
+            };
+
+            let mut cycles = Vec::new();
+
+            for t in &c.cycle_times {
+                if let Some(r) = reference {
+                    net2.borrow_mut().devices[r].sys_time_force = Some(*t);
+                }
+
+                cycles.push(
+                    group
+                        .tx_rx_dc(md)
+                        .await
+                        .map(|r| (r.extra.dc_system_time, r.extra.cycle_start_offset.as_nanos(), r.extra.next_cycle_wait.as_nanos()))
+                        .map_err(|e| format!("{e:?}")),
+                );
+            }
+
+            Ok(C18Obs { conf: Ok(()), no_reference: false, cycles })
+        })
+    })
+    .map_err(|e| sim_fail("C18", e))?;
+
+    let obs = match obs {
+        Ok(o) => o,
+        Err(e) => fail!("C18|harness-init", "init of {n} healthy devices failed: {e:?}"),
+    };
+
+    let net = net.borrow();
+    let m = u64::from(u32::MAX);
+    let period = case.period_ns;
+    let sync1_too_long = case.devices.iter().any(|d| d.0 != DcKind::None && matches!(d.1, SyncMode::Sync01(p) if p > m));
+    let out_of_range = period > m || case.delay_ns > m;
+
+    info.count("devices", n as u64);
+
+    // ---- no reference clock -----------------------------------------------------------------
+    if reference.is_none() {
+        info.label("no-reference-clock");
+        info.nontrivial = true;
+
+        ensure!(obs.no_reference, "C18|no-reference", "no device supports DC: expected DistributedClock(NoReference), got {:?}", obs.conf);
+
+        for (i, d) in net.devices.iter().enumerate() {
+            ensure!(d.dc_sync_log.is_empty(), "C18|touches-device-without-dc", "device {i} has no DC but its DC sync registers were written: {:x?}", d.dc_sync_log);
+        }
+
+        return Ok(());
+    }
+
+    // ---- rejected configurations ------------------------------------------------------------
+    if out_of_range {
+        info.label("period-or-delay-beyond-32-bit");
+        info.nontrivial = true;
+
+        ensure!(obs.conf.is_err(), "C18|out-of-range-accepted", "SYNC0 period {period} ns, start delay {} ns: one of them exceeds u32::MAX ns but configure_dc_sync succeeded", case.delay_ns);
+
+        for (i, d) in net.devices.iter().enumerate() {
+            ensure!(d.dc_sync_log.is_empty(), "C18|registers-written-before-rejection", "the configuration was rejected, but DC sync registers of device {i} were written: {:x?}", d.dc_sync_log);
+        }
+
+        return Ok(());
+    }
+
+    if sync1_too_long {
+        info.label("sync1-period-beyond-32-bit");
+        info.nontrivial = true;
+
+        ensure!(obs.conf.is_err(), "C18|out-of-range-accepted|sync1-period", "a SYNC1 period exceeds u32::MAX ns but configure_dc_sync succeeded ({:?})", case.devices);
+
+        return Ok(());
+    }
+
+    // the stated interval must exist
+    let Some(sum) = case.ref_time.checked_add(case.delay_ns) else {
+        info.label("reference-time-plus-delay-beyond-u64");
+
+        return Ok(());
+    };
+
+    if let Err(e) = &obs.conf {
+        fail!("C18|valid-configuration-rejected", "SYNC0 period {period} ns, delay {} ns, shift {} ns, reference time {}: configure_dc_sync failed: {e}", case.delay_ns, case.shift_ns, case.ref_time);
+    }
+
+    // ---- registers --------------------------------------------------------------------------
+    for (i, (dc, mode)) in case.devices.iter().enumerate() {
+        let d = &net.devices[i];
+        let wants = *dc != DcKind::None && *mode != SyncMode::Disabled;
+
+        if !wants {
+            ensure!(
+                d.dc_sync_log.is_empty(),
+                "C18|touches-device-that-did-not-ask",
+                "device {i} ({dc:?}, {mode:?}) must not be touched, but its DC sync registers were written: {:x?}",
+                d.dc_sync_log
+            );
+
+            continue;
+        }
+
+        let start = u64::from_le_bytes(d.mem[simnet::R_DC_START_TIME..simnet::R_DC_START_TIME + 8].try_into().unwrap());
+        let cyc0 = u32::from_le_bytes(d.mem[simnet::R_DC_SYNC0_CYCLE..simnet::R_DC_SYNC0_CYCLE + 4].try_into().unwrap());
+        let cyc1 = u32::from_le_bytes(d.mem[simnet::R_DC_SYNC1_CYCLE..simnet::R_DC_SYNC1_CYCLE + 4].try_into().unwrap());
+        let act = d.mem[simnet::R_DC_SYNC_ACTIVE];
+
+        ensure!(start % period == 0, "C18|start-time-not-multiple", "device {i}: SYNC0 start time {start} is not a multiple of the period {period}");
+        ensure!(
+            start <= sum && u128::from(start) + u128::from(period) > u128::from(sum),
+            "C18|start-time-interval",
+            "device {i}: reference time {} + delay {} = {sum}, period {period}: start time {start} is not in ({}, {sum}]",
+            case.ref_time,
+            case.delay_ns,
+            i128::from(sum) - i128::from(period)
+        );
+        ensure!(u64::from(cyc0) == period, "C18|sync0-cycle-time", "device {i}: SYNC0 cycle time register holds {cyc0}, configured {period}");
+
+        match mode {
+            SyncMode::Sync01(p) => {
+                ensure!(u64::from(cyc1) == *p, "C18|sync1-cycle-time", "device {i}: SYNC1 cycle time register holds {cyc1}, configured {p}");
+                ensure!(act == 0x07, "C18|activation-flags", "device {i} (SYNC0 + SYNC1): activation register holds {act:#04x}, expected 0x07");
+            }
+            _ => ensure!(act == 0x03, "C18|activation-flags", "device {i} (SYNC0): activation register holds {act:#04x}, expected 0x03"),
+        }
+    }
+
+    // ---- cycles -----------------------------------------------------------------------------
+    for (k, t) in case.cycle_times.iter().enumerate() {
+        let (time, offset, wait) = match &obs.cycles[k] {
+            Ok(r) => *r,
+            Err(e) => fail!("C18|cycle-failed", "tx_rx_dc with reference time {t} failed: {e}"),
+        };
+
+        let want_offset = u128::from(*t % period);
+        let want_wait = u128::from(period) - want_offset + u128::from(case.shift_ns);
+
+        if !period.is_power_of_two() && *t >= 1 << 32 {
+            info.nontrivial = true;
+        }
+
+        ensure!(time == *t, "C18|cycle-time", "the reference clock answered {t}, the cycle reports {time}");
+        ensure!(offset == want_offset, "C18|cycle-offset", "reference time {t}, period {period}: cycle_start_offset is {offset} ns, expected {want_offset}");
+        ensure!(wait == want_wait, "C18|next-cycle-wait", "reference time {t}, period {period}, shift {}: next_cycle_wait is {wait} ns, expected {want_wait}", case.shift_ns);
+    }
+
+    Ok(())
+}
